@@ -79,6 +79,9 @@ def gen_file(rng, tier, i, mode):
         # a long file: crosses the 8192 / 16384 character and byte buffer boundaries
         k["n_max"] = max(k["n_max"], 5)
         tb = model.gen_treebank(rng, k, nsent=rng.randint(120, 400), sid_pattern="consecutive")
+    if rng.random() < 0.004 and mode == "clean" and fmt in ("brackets", "discobrackets"):
+        k["n_max"], k["n_min"], k["words"] = 8, 5, ["len", "ascii"]
+        tb = model.gen_treebank(rng, k, nsent=rng.randint(700, 1100), sid_pattern="consecutive")
     if rng.random() < 0.01 and mode == "clean" and fmt != "tigerxml":
         tb = [model.gen_sentence(rng, k, 1), model.big_sentence(rng, rng.choice([500, 499]), 2)]
     if paren and fmt in ("brackets", "discobrackets"):
